@@ -124,10 +124,10 @@ pub fn run(ctx: &Ctx) -> i32 {
     // whole test cases that are one long run of a single grapheme or short unit (64..300 repeats)
     {
         let units = ["a", "-", "ab", "\u{1f4a9}", "xyz"];
-        let lens = [63usize, 64, 65, 100, 128, 129, 250];
+        let lens: Vec<usize> = if ctx.thorough { vec![63, 64, 65, 100, 128, 129, 250] } else { vec![63, 64, 65, 100, 128, 129] };
         par_for(&ctx.run, units.len() * lens.len() * 3, |i, st| {
             let u = units[i % units.len()];
-            let n = lens[(i / units.len()) % lens.len()];
+            let n = (lens[(i / units.len()) % lens.len()] / u.chars().count()).max(2);
             let k = i / (units.len() * lens.len());
             let tcs = if k == 0 { vec![u.repeat(n)] } else { vec![u.repeat(n), format!("{}z{}", u.repeat(n / 3), u.repeat(n / 3))] };
             st.count("long_run_inputs");
